@@ -11,6 +11,7 @@
    EVAL hex                         -> opts | NONE
    ROPTS mods                       -> opts | NONE
    CLIENT content content2 poll seed accept chunk...  -> events | before | after
+   HSSPEC streamhex                 -> 0/1 resthex            (hs_spec client_sync: the announcement check on the whole stream)
    SERVER numhex                    -> events | stdouthex
    SYNC                             -> server_sync client_sync ping_frame
    PYCMD sh|py|cmd|ps pyhex vnumhex lennumhex -> hex of the remote command line (ssh.py:137-189; pyhex "-" = no --python)
@@ -105,6 +106,10 @@ let handle = function
   | ["SHWORDS"; h] -> (match sh_words (bytes_of_hex h) with Some l -> hexlist l | None -> "NONE")
   | ["PSWORDS"; h] -> (match ps_words (bytes_of_hex h) with Some l -> hexlist l | None -> "NONE")
   | ["QUOTE"; h] -> hex_of_bytes (sh_quote (bytes_of_hex h))
+  | ["HSSPEC"; hx] ->
+      (* stream-level specification of the announcement check (theorem c18_connected_iff_announced) *)
+      let (ok, rest) = hs_spec client_sync (bytes_of_hex hx) in
+      Printf.sprintf "%d %s" (if ok then 1 else 0) (hex_of_bytes rest)
   | ["SYNC"] -> Printf.sprintf "%s %s %s" (hex_of_bytes server_sync) (hex_of_bytes client_sync) (hex_of_bytes ping_frame)
   | _ -> "ERROR bad command"
 let () = main_loop handle
